@@ -65,7 +65,7 @@ def gen_cases(tier, rnd):
             rx = rnd.choice(sorted(grouping.RX))
             cases.append(("regex", sevs, key, rx, rnd.choice(grouping.RX[rx])))
         else:
-            cases.append(("filter", evs, rnd.choice(["k1", "k2", "k9"]), tuple(rnd.sample(["v1", "v2", "L1", "null", "L0", "L2"], rnd.randint(0, 3)))))
+            cases.append(("filter", evs, rnd.choice(["k1", "k2", "k9"]), tuple(rnd.sample(["v1", "v2", "L1", "null", "L0", "L2", "im1", "im2", "L3"], rnd.randint(0, 3)))))
     return cases
 
 
